@@ -142,6 +142,10 @@ define_ops! {
     nt_is_zero = |a: U| pair(|| num_traits::Zero::is_zero(&a), || Uint::is_zero(&a));
     x_nt_from_le_bytes = |s: BY| pair(|| <Uint<B, L> as num_traits::FromBytes>::from_le_bytes(&s), || Uint::<B, L>::try_from_le_slice(&s));
     x_nt_from_be_bytes = |s: BY| pair(|| <Uint<B, L> as num_traits::FromBytes>::from_be_bytes(&s), || Uint::<B, L>::try_from_be_slice(&s));
+    // provided methods of the same traits
+    nt_one_zero_provided = |a: U| pair(|| { let (mut o, mut z) = (a, a); num_traits::One::set_one(&mut o); num_traits::Zero::set_zero(&mut z); (num_traits::One::is_one(&a), o, z) }, || (a == Uint::<B, L>::ONE, Uint::<B, L>::ONE, Uint::<B, L>::ZERO));
+    nt_to_ne_bytes = |a: U| pair(|| num_traits::ToBytes::to_ne_bytes(&a), || Uint::to_le_bytes_vec(&a));
+    x_nt_from_ne_bytes = |s: BY| pair(|| <Uint<B, L> as num_traits::FromBytes>::from_ne_bytes(&s), || Uint::<B, L>::try_from_le_slice(&s));
     nt_to_le_bytes = |a: U| pair(|| num_traits::ToBytes::to_le_bytes(&a), || Uint::to_le_bytes_vec(&a));
     nt_to_be_bytes = |a: U| pair(|| num_traits::ToBytes::to_be_bytes(&a), || Uint::to_be_bytes_vec(&a));
     nt_checked_add = |a: U, b: U| pair(|| num_traits::CheckedAdd::checked_add(&a, &b), || Uint::checked_add(a, b));
@@ -154,6 +158,9 @@ define_ops! {
     nt_checked_shr = |a: U, s: W| pair(|| num_traits::CheckedShr::checked_shr(&a, s as u32), || Uint::checked_shr(a, s as u32 as usize));
     nt_checked_div_euclid = |a: U, b: U| pair(|| num_traits::CheckedEuclid::checked_div_euclid(&a, &b), || Uint::checked_div(a, b));
     nt_checked_rem_euclid = |a: U, b: U| pair(|| num_traits::CheckedEuclid::checked_rem_euclid(&a, &b), || Uint::checked_rem(a, b));
+    // the combined forms are PROVIDED by num-traits (div_euclid + rem_euclid) unless the impl writes them out
+    nt_div_rem_euclid = |a: U, b: U| pair(|| num_traits::Euclid::div_rem_euclid(&a, &b), || Uint::div_rem(a, b));
+    nt_checked_div_rem_euclid = |a: U, b: U| pair(|| num_traits::CheckedEuclid::checked_div_rem_euclid(&a, &b), || if b.is_zero() { None } else { Some(Uint::div_rem(a, b)) });
     nt_div_euclid = |a: U, b: U| pair(|| num_traits::Euclid::div_euclid(&a, &b), || Uint::wrapping_div(a, b));
     nt_rem_euclid = |a: U, b: U| pair(|| num_traits::Euclid::rem_euclid(&a, &b), || Uint::wrapping_rem(a, b));
     nt_inv = |a: U| pair(|| num_traits::Inv::inv(a), || Uint::inv_ring(a));
@@ -253,7 +260,7 @@ group_glue!();
 
 const BIN: &[Op] = &[
     Op::nt_checked_add, Op::nt_checked_sub, Op::nt_checked_mul, Op::nt_checked_div, Op::nt_checked_rem, Op::nt_checked_div_euclid, Op::nt_checked_rem_euclid,
-    Op::nt_div_euclid, Op::nt_rem_euclid, Op::nt_saturating, Op::nt_saturating_add, Op::nt_saturating_sub, Op::nt_saturating_mul, Op::nt_wrapping_add,
+    Op::nt_div_euclid, Op::nt_rem_euclid, Op::nt_div_rem_euclid, Op::nt_checked_div_rem_euclid, Op::nt_saturating, Op::nt_saturating_add, Op::nt_saturating_sub, Op::nt_saturating_mul, Op::nt_wrapping_add,
     Op::nt_wrapping_sub, Op::nt_wrapping_mul, Op::nt_overflowing_add, Op::nt_overflowing_sub, Op::nt_overflowing_mul, Op::ni_div_floor, Op::ni_mod_floor,
     Op::x_ni_gcd_lcm, Op::ni_divides, Op::x_ni_next_multiple_of, Op::ni_prev_multiple_of,
     Op::bits_eq_hash, Op::ni_gcd, Op::x_ni_lcm, Op::ni_is_multiple_of, Op::ni_div_rem, Op::ni_div_ceil, Op::ni_div_mod_floor, Op::ni_extended_gcd, Op::ct_cmp,
@@ -262,7 +269,7 @@ const BIN_SHAPED: &[Op] = &[Op::op_add, Op::op_sub, Op::op_mul, Op::op_div, Op::
 const UN: &[Op] = &[
     Op::bits_reverse_bits, Op::bits_as_le_bytes, Op::bits_to_be_bytes_vec, Op::bits_to_le_bytes, Op::bits_to_be_bytes, Op::bits_leading_zeros, Op::bits_leading_ones,
     Op::bits_trailing_zeros, Op::bits_trailing_ones, Op::bits_from_limbs, Op::bits_as_limbs, Op::nt_is_zero, Op::nt_to_le_bytes, Op::nt_to_be_bytes, Op::nt_checked_neg,
-    Op::nt_inv, Op::nt_wrapping_neg, Op::nt_to_primitive, Op::nt_to_primitive_narrow, Op::pi_counts, Op::pi_reverse_bits, Op::pi_swap_bytes, Op::ni_even_odd, Op::ni_inc_dec, Op::zeroize, Op::bits_debug,
+    Op::nt_inv, Op::nt_wrapping_neg, Op::nt_one_zero_provided, Op::nt_to_ne_bytes, Op::nt_to_primitive, Op::nt_to_primitive_narrow, Op::pi_counts, Op::pi_reverse_bits, Op::pi_swap_bytes, Op::ni_even_odd, Op::ni_inc_dec, Op::zeroize, Op::bits_debug,
 ];
 const SHIFT_N: &[Op] = &[
     Op::bits_checked_shl, Op::bits_checked_shr, Op::bits_overflowing_shl, Op::bits_overflowing_shr, Op::bits_wrapping_shl, Op::bits_wrapping_shr,
@@ -463,7 +470,7 @@ fn c20(r: &Runner) {
         r.universe(&format!("{} byte strings of length 0..={} for the constructor facades", strs.len(), nb + 2), bits, strs.len(), |i, l| {
             let s = V::Bytes(strs[i].clone());
             l.states(1);
-            for op in [Op::bits_try_from_be_slice, Op::bits_try_from_le_slice, Op::x_nt_from_le_bytes, Op::x_nt_from_be_bytes] {
+            for op in [Op::bits_try_from_be_slice, Op::bits_try_from_le_slice, Op::x_nt_from_le_bytes, Op::x_nt_from_be_bytes, Op::x_nt_from_ne_bytes] {
                 exec(l, bits, op, &[s.clone()]);
             }
             if strs[i].len() == nb {
